@@ -8,6 +8,9 @@ A case (engine=loop) is one program + one schedule:
                                                               qburst<first>x<count> = q<first> q<first+1> … (shorthand,
                                                               expanded by both drivers; ids of q/r up to 65535, a task
                                                               without a `task` line has an empty body)
+    dtor <id>: <subs>          what the DESTRUCTION of task <id>'s functor object does (the destructor of something the
+                               functor owns): runs where the loop lets go of the functor — after the batch it was part of
+                               has run (doPendingFunctors), or when an inline runInLoop() returns; event `T<k> dtor <id>`
     pre: <subs>                what the owner does before loop() (elt: in the ThreadInitCallback)
     thread <k>: <subs>         program of thread k (plain: foreign threads k >= 1; elt: k = 0, the owner of the EventLoopThread)
     follow <k …> | schedule <int …>   (+ `spurious`: with a raw schedule the scheduler may wake a condition waiter
@@ -24,7 +27,10 @@ once (every raw schedule within 1..2 preemptions, through the silent switch poin
 harness), the counts become the thorough ones.
 
 Oracle kinds (C04): wrong-thread, order, exec-context, inline-first, lost-wakeup, task-dropped, drain-on-exit
-                    (loop() returned although a functor appended before its last test of the queue never ran)
+                    (loop() returned although a functor appended before its last test of the queue never ran);
+                    all of them also judge the submissions made by destructor bodies (a functor queued while a functor
+                    object dies is a queued functor like any other); wrong-thread also: a functor object died on a thread
+                    other than the loop thread
 Oracle kinds (C05): quit-ignored, quit-lost, loop-returned-without-quit, uaf-dtor, uaf, startloop (wrong pointer,
                     NULL for a live loop), startloop-hang (also: waiting for a loop that is already gone),
                     join, join-hang, deadlock
@@ -56,6 +62,7 @@ class Prog:
     def __init__(self):
         self.mode = "plain"
         self.tasks = {}      # id -> [sub]
+        self.dtors = {}      # id -> [sub]: destructor body of what the task's functor object owns
         self.pre = []
         self.threads = {}    # k -> [sub]
         self.follow = None
@@ -66,6 +73,7 @@ class Prog:
         p = Prog()
         p.mode = self.mode
         p.tasks = {k: list(v) for k, v in self.tasks.items()}
+        p.dtors = {k: list(v) for k, v in self.dtors.items()}
         p.pre = list(self.pre)
         p.threads = {k: list(v) for k, v in self.threads.items()}
         p.follow = None if self.follow is None else list(self.follow)
@@ -77,6 +85,9 @@ class Prog:
         out = ["mode " + self.mode]
         for i in sorted(self.tasks):
             out.append("task %d: %s" % (i, " ".join(self.tasks[i])))
+        for i in sorted(self.dtors):
+            if self.dtors[i]:
+                out.append("dtor %d: %s" % (i, " ".join(self.dtors[i])))
         out.append("pre: " + " ".join(self.pre))
         ks = sorted(self.threads)
         if self.mode == "plain" and ks:
@@ -127,6 +138,8 @@ def parse_case(lines):
                 p.pre = subs
             elif hw[0] == "task":
                 p.tasks[int(hw[1])] = subs
+            elif hw[0] == "dtor":
+                p.dtors[int(hw[1])] = subs
             elif hw[0] == "thread":
                 p.threads[int(hw[1])] = subs
             else:
@@ -294,6 +307,11 @@ def oracle(prog, lines):
                     fail("trace", "unbalanced `%s`" % line)
                     break
                 depth.pop()
+            elif w[2] == "leave-dtor":
+                if not depth or depth[-1] != ("dtor", int(w[3])):
+                    fail("trace", "unbalanced `%s`" % line)
+                    break
+                depth.pop()
             continue
         if line.startswith("#"):
             continue
@@ -340,6 +358,13 @@ def oracle(prog, lines):
                 depth.append(x)
             else:
                 fail("exec-context", "task %d started in phase %s at nesting depth %d" % (x, phase, len(depth)))
+        elif w[1] == "dtor":
+            # a functor object dies and the destructor of what it owns starts to run: user code on the loop thread, in
+            # whatever phase the loop lets go of the object.  What it submits is judged like any other submission.
+            x = int(w[2])
+            if k != L:
+                fail("wrong-thread", "the functor object of task %d was destroyed on T%d, the loop thread is T%d" % (x, k, L))
+            depth.append(("dtor", x))
         elif what == "point queueInLoop:appended":
             if top is None or top.kind not in ("q", "r"):
                 fail("trace", "append outside a submission")
@@ -473,6 +498,16 @@ def _subs(rng, n, ids, kinds="qqrp"):
     return [rng.choice(kinds) + str(rng.choice(ids)) for _ in range(n)] if ids else []
 
 
+def _gen_dtors(rng, p, nt, density):
+    """some functor objects own something whose destructor submits again (higher-numbered tasks only, like the bodies:
+    every chain of submissions ends)"""
+    if rng.random() >= density:
+        return
+    for i in range(1, nt):
+        if rng.random() < 0.4:
+            p.dtors[i] = _subs(rng, rng.choice([1, 1, 1, 2]), list(range(i + 1, nt + 1)), "qqqrp")
+
+
 def gen_plain(rng, size=None):
     """one loop owned by T0 (runs `pre`, then loop()), foreign threads T1..; quit() from anywhere or nowhere"""
     p = Prog()
@@ -480,13 +515,18 @@ def gen_plain(rng, size=None):
     for i in range(nt, 0, -1):
         higher = list(range(i + 1, nt + 1))
         p.tasks[i] = _subs(rng, rng.choice([0, 0, 0, 1, 1, 2, 3]), higher)
+    _gen_dtors(rng, p, nt, 0.5)
     ids = list(range(1, nt + 1))
     p.pre = _subs(rng, rng.choice([0, 0, 1, 1, 2, 3]), ids)
     nthr = rng.choice([0, 1, 1, 1, 2, 2, 3])
     for k in range(1, nthr + 1):
         p.threads[k] = _subs(rng, rng.choice([1, 1, 2, 3, 4]), ids)
     r = rng.random()
-    if r < 0.40 and nthr:
+    if p.dtors and rng.random() < 0.12:
+        # the destructor of something a functor owns ends the loop
+        t = rng.choice(sorted(p.dtors))
+        p.dtors[t].insert(rng.randrange(0, len(p.dtors[t]) + 1), "quit")
+    elif r < 0.40 and nthr:
         k = rng.randrange(1, nthr + 1)
         p.threads[k].insert(rng.randrange(0, len(p.threads[k]) + 1), "quit")
     elif r < 0.65:
@@ -514,6 +554,7 @@ def gen_elt(rng):
     for i in range(nt, 0, -1):
         higher = list(range(i + 1, nt + 1))
         p.tasks[i] = _subs(rng, rng.choice([0, 0, 1, 1, 2]), higher)
+    _gen_dtors(rng, p, nt, 0.35)
     ids = list(range(1, nt + 1))
     p.pre = _subs(rng, rng.choice([0, 0, 0, 1, 2]), ids)
     body = _subs(rng, rng.choice([0, 0, 1, 2, 3]), ids)
@@ -538,6 +579,7 @@ def gen_elt_early_quit(rng):
     for i in range(nt, 0, -1):
         higher = list(range(i + 1, nt + 1))
         p.tasks[i] = _subs(rng, rng.choice([0, 0, 1, 2]), higher)
+    _gen_dtors(rng, p, nt, 0.3)
     ids = list(range(1, nt + 1))
     p.pre = _subs(rng, rng.choice([0, 1, 2]), ids)
     where = rng.random()
@@ -605,6 +647,28 @@ def sweeps():
             p.threads[1] = list(body)
             p.follow = [0] * i + [1] * 8 + [0] * 80
             out.append(("sweep-final-drain", p))
+    # functor objects whose destruction queues again: a foreign submission placed at every step of a loop thread that runs
+    # a batch, destroys it (destructor of task 1 queues task 2, the functor of the inline task 5 dies inside a destructor
+    # body and queues task 6), sleeps and is woken; a second thread ends the loop afterwards
+    for body in (["q3"], ["r3", "q4"]):
+        for i in range(0, 30):
+            p = Prog()
+            p.tasks = {1: [], 2: [], 3: [], 4: [], 5: [], 6: []}
+            p.dtors = {1: ["q2"], 2: ["r5"], 5: ["q6"]}
+            p.pre = ["q1"]
+            p.threads[1] = list(body)
+            p.threads[2] = ["quit"]
+            p.follow = [0] * i + [1] * 8 + [0] * 60 + [2] * 4 + [0] * 60
+            out.append(("sweep-dtor", p))
+    # … the same inside the drain after the `while`: the quit placed at every step; destructor bodies keep the final drain going
+    for i in range(0, 24):
+        p = Prog()
+        p.tasks = {1: ["q2"], 2: [], 3: ["q4"], 4: []}
+        p.dtors = {1: ["q3"], 2: ["p4"], 3: ["r4"]}
+        p.pre = ["q1"]
+        p.threads[1] = ["quit"]
+        p.follow = [0] * i + [1] * 8 + [0] * 120
+        out.append(("sweep-dtor-final-drain", p))
     # ~EventLoopThread at every point of the new thread's progress (with and without an init callback that queues)
     for pre in ([], ["q1"]):
         for i in range(0, 20):
@@ -672,6 +736,7 @@ def contexts(prog, impl):
     seen = set()
     phase = "before"
     depth = 0
+    bodies = []        # what the loop thread is executing, innermost last: "t" task body, "d" destructor body
     names = {"q": "queue", "r": "run", "quit": "quit"}
     for line in impl:
         if line.startswith("# T"):
@@ -683,6 +748,9 @@ def contexts(prog, impl):
                     if k != L:
                         seen.add("%s:foreign" % names[kind])
                         seen.add("%s:foreign@%s" % (names[kind], phase))
+                    elif bodies and bodies[-1] == "d":
+                        seen.add("%s:dtor" % names[kind])
+                        seen.add("%s:dtor@%s%s" % (names[kind], phase, "-inline" if "t" in bodies else ""))
                     elif phase in ("before", "published"):
                         seen.add("%s:before-loop" % names[kind])
                     elif depth >= 2:
@@ -699,6 +767,11 @@ def contexts(prog, impl):
                     seen.add("destroy@%s" % phase)
             elif w[2] == "leave":
                 depth -= 1
+                if bodies:
+                    bodies.pop()
+            elif w[2] == "leave-dtor":
+                if bodies:
+                    bodies.pop()
             continue
         if not line.startswith("T"):
             continue
@@ -707,6 +780,10 @@ def contexts(prog, impl):
         what = " ".join(w[1:])
         if w[1] == "exec":
             depth += 1
+            bodies.append("t")
+        if w[1] == "dtor":
+            bodies.append("d")
+            seen.add("dtor@%s" % phase)
         if what in ("started", "started null"):
             seen.add("startLoop:" + ("null" if what.endswith("null") else "loop") + "@" + phase)
         if k == L:
@@ -733,6 +810,9 @@ def _atoms(prog):
     for i in sorted(prog.tasks):
         for j, s in enumerate(prog.tasks[i]):
             a.append("task|%d|%d|%s" % (i, j, s))
+    for i in sorted(prog.dtors):
+        for j, s in enumerate(prog.dtors[i]):
+            a.append("dtor|%d|%d|%s" % (i, j, s))
     for j, s in enumerate(prog.pre):
         a.append("pre|0|%d|%s" % (j, s))
     for k in sorted(prog.threads):
@@ -755,6 +835,8 @@ def _rebuild(prog, atoms):
         kind, idx, _, val = a.split("|")
         if kind == "task":
             p.tasks[int(idx)].append(val)
+        elif kind == "dtor":
+            p.dtors.setdefault(int(idx), []).append(val)
         elif kind == "pre":
             p.pre.append(val)
         elif kind == "thread":
@@ -1018,9 +1100,10 @@ def exhaustive_programs(which):
     """small programs whose schedules are enumerated completely under a preemption bound (thorough tier)"""
     out = []
 
-    def prog(mode, tasks, pre, threads):
+    def prog(mode, tasks, pre, threads, dtors=None):
         p = Prog()
         p.mode, p.tasks, p.pre, p.threads = mode, tasks, pre, threads
+        p.dtors = dtors or {}
         return p
     if which == "C04":
         # two submitters x two tasks against a loop that has work queued before loop()
@@ -1031,6 +1114,8 @@ def exhaustive_programs(which):
         out.append(("queue-vs-quit", prog("plain", {1: [], 2: []}, ["q1"], {1: ["q2", "quit"]}), 3))
         # the final drain runs functors that queue again, a foreign thread queues while the loop is leaving
         out.append(("final-drain-requeue", prog("plain", {1: ["q2"], 2: ["q3"], 3: []}, ["q1"], {1: ["quit", "q3"]}), 3))
+        # the functor object of task 1 dies after its batch and queues task 2 while a foreign thread queues task 3
+        out.append(("dtor-queues", prog("plain", {1: [], 2: [], 3: []}, ["q1"], {1: ["q3"]}, {1: ["q2"]}), 2))
     else:
         out.append(("quit-vs-loop-entry", prog("plain", {1: []}, ["q1"], {1: ["quit"]}), 3))
         out.append(("two-quitters", prog("plain", {1: ["quit"]}, [], {1: ["quit"], 2: ["q1"]}), 2))
